@@ -346,8 +346,19 @@ func (s *Solver) Assert(t *Term) {
 	s.asserted = append(s.asserted, t)
 }
 
+// readLine reads one line of solver output. A solver that does not answer within three times
+// its own time limit plus 30 s (cvc5's --tlimit-per does not interrupt every preprocessing pass) is
+// killed: the read then fails, the caller marks the process dead and the query is Unknown -
+// a check never hangs on a solver.
 func (s *Solver) readLine() (string, error) {
+	limit := 3*time.Duration(s.TimeoutMs)*time.Millisecond + 30*time.Second
+	t := time.AfterFunc(limit, func() {
+		if s.cmd != nil && s.cmd.Process != nil {
+			s.cmd.Process.Kill()
+		}
+	})
 	line, err := s.out.ReadString('\n')
+	t.Stop()
 	return strings.TrimSpace(line), err
 }
 
